@@ -88,7 +88,12 @@ Inductive estep :=
 | TsWrite (i : nat)                (*   its second statement: os.write(writefd, b"interrupting event!") *)
 | Sigint (k : N)                   (* SIGINT with sigint_event=True: wake-up byte + sigint_handler *)
 | Signal (n : N)                   (* another signal that has a Python handler: wake-up byte only *)
-| Tick (d : Z).                    (* the clock advances *)
+| Tick (d : Z)                     (* the clock advances *)
+| Late (d : Z).                    (* a LATE select wake-up: meaningful only as a step of the script of a
+                                      request, when a select call that has a timeout reaches it with
+                                      nothing ready: the call then times out with the clock at its
+                                      deadline + max 0 d (a real select always returns a little late).
+                                      No effect anywhere else (select without timeout, between requests). *)
 
 Definition pipe_msg_len : N := 19.     (* len(b"interrupting event!") *)
 Definition sigint_no : N := 2.         (* signal.SIGINT *)
@@ -123,6 +128,7 @@ Definition apply_env (e : estep) (s : st) : st :=
   | Sigint k => set_g_sig (g_sig s ++ [k]) (set_wake (wake s ++ [sigint_no]) (set_sigints (sigints s ++ [k]) s))
   | Signal n => set_wake (wake s ++ [n]) s
   | Tick d => set_now (now s + Z.max 0 d) s
+  | Late _ => s
   end.
 
 Definition apply_envs (es : list estep) (s : st) : st := fold_left (fun s e => apply_env e s) es s.
@@ -149,7 +155,9 @@ Definition first_ready (s : st) : option fd :=
 
 (* One call of select.  [script] = what the environment does while this call is
    blocked, in order; the call returns as soon as a descriptor is ready (steps not
-   yet consumed stay in the script) or when the timeout expires.
+   yet consumed stay in the script) or when the timeout expires: exactly at the
+   deadline tcall + rem (or at once if it has passed), or, through a [Late d]
+   step, max 0 d later.
    Result: Some (Some fd) ready, Some None timed out (rs empty),
    None = blocked for ever. *)
 Fixpoint select_run (rem : option Z) (tcall : Z) (s : st) (script : list estep)
@@ -172,6 +180,11 @@ Fixpoint select_run (rem : option Z) (tcall : Z) (s : st) (script : list estep)
                    (set_now fire s, Tick (now s + d - fire) :: rest, Some None)
               else select_run rem tcall (set_now (now s + d) s) rest
           | None => select_run rem tcall (set_now (now s + d) s) rest
+          end
+      | Late d :: rest =>
+          match rem with
+          | Some r => (set_now (Z.max (now s) (tcall + r) + Z.max 0 d) s, rest, Some None)
+          | None => select_run rem tcall s rest
           end
       | e :: rest => select_run rem tcall (apply_env e s) rest
       end
